@@ -1154,6 +1154,24 @@ def _foreign_fork_try(env, proc, label, case_attrs, killable=True):
     raise HarnessError('no reply from the forked starter: %r' % msg)
 
 
+def _join_until_exit(env, p, what, attrs):
+    """join a child that is free to end; a slow machine is not a violation"""
+    t_end = time.monotonic() + EXIT_GUARD
+    while True:
+        p.join(1.0)
+        code = p.exitcode
+        if code is not None:
+            return code
+        if time.monotonic() > t_end:
+            if p.pid and has_ended(p.pid):
+                env.rec.violation('exit_never_reported', attrs, what=what,
+                                  child_state=proc_state(p.pid))
+                return None
+            _kill(p.pid, signal.SIGKILL)
+            raise HarnessError('%s (pid %s) did not end within %d s' % (
+                what, p.pid, EXIT_GUARD))
+
+
 def run_foreign(env, rounds):
     rec, H = env.rec, env.H
     rng = rng_for(env.seed, 'foreign')
@@ -1165,13 +1183,17 @@ def run_foreign(env, rounds):
         # ... its creator can still start it, and it reports 0
         try:
             q.start()
-            q.join(60)
             rec.count('children_started')
             rec.count('method:' + env.method)
-            if q.exitcode != 0:
+            code = _join_until_exit(env, q, 'object started by its creator',
+                                    {'method': env.method, 'path': 'return',
+                                     'phase': 'after_exit'})
+            if code is not None and (code != 0 or not is_code(code)):
                 rec.violation('exitcode_wrong', {'method': env.method, 'path': 'return',
                                                  'phase': 'after_join'},
-                              exitcode=repr(q.exitcode), where='after foreign attempt')
+                              exitcode=repr(code), where='after foreign attempt')
+        except HarnessError:
+            raise
         except BaseException as exc:
             rec.violation('call_raised', {'method': env.method, 'path': 'return',
                                           'phase': 'start'},
@@ -1210,8 +1232,11 @@ def run_foreign(env, rounds):
                 p.start()
                 rec.count('children_started')
                 rec.count('method:' + carrier)
-                p.join(120)
-                code = p.exitcode
+                code = _join_until_exit(env, p, 'carrier',
+                                        {'method': carrier, 'path': 'return',
+                                         'phase': 'after_exit'})
+            except HarnessError:
+                raise
             except BaseException as exc:
                 rec.violation('call_raised', {'method': carrier, 'path': 'return',
                                               'phase': 'start'},
@@ -1236,7 +1261,7 @@ def run_foreign(env, rounds):
                 rec.count('foreign:unstarted/%s child' % carrier)
             else:
                 raise HarnessError('carrier %s wrote nothing (exit %r)' % (carrier, code))
-            if code != 0:
+            if code is not None and (code != 0 or not is_code(code)):
                 rec.violation('exitcode_wrong', {'method': carrier, 'path': 'return',
                                                  'phase': 'after_join'},
                               exitcode=repr(code), where='carrier of foreign start')
@@ -1359,9 +1384,14 @@ def run_mt(env, rounds):
                           sum(x[1] for x in o if x[0] == 'alive'))
             try:
                 fin = p.exitcode
-                if fin is None:
-                    p.join(10)
+                t_end = time.monotonic() + EXIT_GUARD
+                while fin is None and time.monotonic() < t_end:
+                    p.join(0.5)
                     fin = p.exitcode
+                if fin is None and not has_ended(c.pid):
+                    raise HarnessError('child %d did not end' % c.pid)
+            except HarnessError:
+                raise
             except BaseException as exc:
                 fin = None
                 rec.violation('poll_raised_during_concurrent_join', attrs, path=kind, call='exitcode (final)',
